@@ -23,6 +23,11 @@ def modes : List Mode := []
   ++ [Drv.Schema.mode]
   ++ [Drv.CratesV2.mode]
   ++ [Drv.CratesV2Spec.mode]
+  ++ [Drv.TracksV1.specTable]
+
+/-- Stateful groups, selected by a first line `#mode <name>`. -/
+def modes : List Mode := []
+  ++ [Drv.TracksV1.mode]
 
 def dispatch (line : String) : String :=
   match tokens line with
